@@ -163,6 +163,11 @@ def sanitizer_reports(log):
     return n
 
 
+# rounds of the thorough tier per property, sized so that a thorough run takes a few minutes on 16 cores
+THOROUGH_ROUNDS = {"C01": 4, "C02": 3, "C03": 10, "C04": 5, "C05": 12, "C06": 16, "C07": 16, "C08": 3, "C09": 12, "C10": 10, "C11": 12,
+                   "C12": 10, "C13": 10, "C14": 12, "C15": 3, "C16": 3, "C17": 4, "C18": 10, "C19": 2, "C20": 1}
+
+
 def main(argv=None):
     ap = argparse.ArgumentParser()
     ap.add_argument("prop")
@@ -184,6 +189,7 @@ def main(argv=None):
     mod = importlib.import_module("vf.props." + prop.lower())
 
     replay = None
+    rounds = 1
     if args.replay:
         with open(args.replay) as f:
             replay = json.load(f)
@@ -191,7 +197,24 @@ def main(argv=None):
         spec["only"] = replay["case_id"]
         specs = [spec]
     else:
-        specs = mod.plan(tier, seed)
+        # the thorough tier repeats the property's plan under several derived seeds ("rounds"): every generator draws new
+        # cases in each round; batches that do not depend on the seed (marked once) run in the first round only
+        rounds = 1
+        if tier == "thorough":
+            try:
+                rounds = max(1, int(os.environ.get("VERIF_ROUNDS", THOROUGH_ROUNDS.get(prop, 1))))
+            except ValueError:
+                rounds = THOROUGH_ROUNDS.get(prop, 1)
+        specs = []
+        for r in range(rounds):
+            seed_r = seed + 1009 * r
+            for s in mod.plan(tier, seed_r):
+                if r and (s.get("once") or s.get("kind") == "ambient-tests" or s.get("build") == "asan"):
+                    continue
+                s["seed"] = seed_r
+                if r:
+                    s["name"] = "%s@r%d" % (s.get("name", "batch"), r)
+                specs.append(s)
         if args.only_batch:
             specs = [s for s in specs if args.only_batch in s.get("name", "")]
     for s in specs:
@@ -342,6 +365,7 @@ def main(argv=None):
                          for k, m in sorted(monitors.items())},
             "reach": dict(sorted(reach.items())),
             "batches": batches,
+            "rounds": (rounds if not replay else 1),
             "sanitizer_reports": san_reports,
             "known_findings_observed": seen_known,
             "inconclusive_reasons": incon[:10],
